@@ -1,0 +1,65 @@
+//! Verification hooks (cargo feature `verif`, off by default).
+//!
+//! Nothing in here changes behaviour unless a callback or an override has been
+//! installed by an external harness:
+//!  * `set_dir` / `dir_override`: per-thread data directory override, so that
+//!    several nodes (or many fresh histories) can live in one process although
+//!    `NUN_DBS_DIR` is process global.
+//!  * `set_point_callback` / `point`: named yield points placed *between*
+//!    critical sections (never inside one); used for controlled scheduling and
+//!    delay injection.
+//!  * `set_transport` / `transport`: lets a harness carry the bytes of a
+//!    replication link over an in-memory channel instead of TCP.
+use crate::bo::Databases;
+use futures::channel::mpsc::Receiver;
+use std::cell::RefCell;
+use std::sync::{Arc, RwLock};
+
+thread_local! {
+    static DIR: RefCell<Option<String>> = RefCell::new(None);
+}
+
+pub fn set_dir(dir: Option<String>) {
+    DIR.with(|d| *d.borrow_mut() = dir);
+}
+
+pub fn dir_override() -> Option<String> {
+    DIR.with(|d| d.borrow().clone())
+}
+
+pub type PointCallback = Arc<dyn Fn(&str) + Send + Sync>;
+
+lazy_static::lazy_static! {
+    static ref POINT: RwLock<Option<PointCallback>> = RwLock::new(None);
+    static ref TRANSPORT: RwLock<Option<TransportCallback>> = RwLock::new(None);
+}
+
+pub fn set_point_callback(cb: Option<PointCallback>) {
+    *POINT.write().unwrap() = cb;
+}
+
+pub fn point(site: &str) {
+    let cb = { POINT.read().unwrap().clone() };
+    if let Some(cb) = cb {
+        cb(site);
+    }
+}
+
+/// Arguments of `replication_ops::start_replication` handed to the harness.
+pub struct LinkRequest {
+    pub peer_address: String,
+    pub command_receiver: Receiver<String>,
+    pub own_address: String,
+    pub is_primary: bool,
+    pub dbs: Arc<Databases>,
+}
+
+pub type TransportCallback = Arc<dyn Fn(LinkRequest) + Send + Sync>;
+
+pub fn set_transport(cb: Option<TransportCallback>) {
+    *TRANSPORT.write().unwrap() = cb;
+}
+
+pub fn transport() -> Option<TransportCallback> {
+    TRANSPORT.read().unwrap().clone()
+}
